@@ -6,5 +6,6 @@ import TsVerif.C16.Props
 #print axioms TsVerif.C16.lookahead_done_stays
 #print axioms TsVerif.C16.conforms_iff
 #print axioms TsVerif.C16.allowed_iff_reach
+#print axioms TsVerif.C16.closure_always_converges
 #print axioms TsVerif.C16.name_roundtrip
 #print axioms TsVerif.C16.field_roundtrip
